@@ -216,9 +216,11 @@ PROPS["C13"] = {
 }
 PROPS["C13"]["level_text"] = (
     "Theorems (Stef/Props/C13.lean): Deserialize(Serialize w) = w for every list of at most 1024 counts below 2^64 and refusal "
-    "above the limit; NewWireSchema order = generated Init consumption order; print->parse: negation of the full statement from "
-    "the witnesses of the recorded PrettyPrint defects and partial theorems; tied to go/pkg/schema and the generated otelstef "
-    "code by op-for-op differential runs.")
+    "above the limit; NewWireSchema order = generated Init consumption order for ALL schemas, recursive ones included (wire_order, "
+    "wire_order_parsed); print->parse: for every schema returned by parse that keeps at least one struct, parse(prettyPrint s) = ok "
+    "(s sorted by name), hence equivalent with the same wire schema for every root (print_parse, print_parse_safe); the full "
+    "statement is refuted only by the recorded finding (schema without a root prints as `package a`); tied to go/pkg/schema and the "
+    "generated otelstef code by op-for-op differential runs.")
 
 PROPS["C17"] = {
     "lean_modules": ["Stef.Props.C17"],
